@@ -23,6 +23,14 @@ LEVEL={
  "C16":("every built-in reader claimed is run over symbolic inputs with the source failing persistently at every byte position and compared with its fault-free twin: prefix of results equal (last exempt), then a non-continuable non-EOF error within the read bound",
         "fault model: once failing, always failing with the same error; a reader that legitimately stops before the fault matters may end as the fault-free run does"),
 }
+LEVEL.update({
+ "C04":("the real XML stream reader (real encoding/xml) and the JSON stream reader (token model) with the real antchfx/xpath engine are executed symbolically over forked document shapes with symbolic values and compared, per target xpath, with whole-document selection on an independently built tree (outermost candidates, own predicate, document order, complete subtrees); the path/filter splitter is checked against a forward scanner on all well-formed strings",
+        "JSON tokenisation replaced by a grammar-valid token model (natively the real decoder runs on the rendered text); xpath class = the listed expressions"),
+ "C08":("JSON: tree built by the stream reader converted back with J2NodeToInterface and deep-compared with the abstract value for all values in the bound; XML: delivered tree compared node by node (type, prefix, URI, name, order, attributes first, text) with an independently built tree for namespace/attribute/mixed-content shapes",
+        "small integer numbers only (float formatting trusted); XML entities/CDATA/PIs are the tokeniser's"),
+ "C17":("periodic inputs: the size of the tree reachable from the reader's root after each delivered-and-released record must not exceed the size after the first; XML with the real decoder, passing and filtered-out records, with and without separators; the growth with character data between records is the recorded finding F6",
+        "retention measured on the node tree only"),
+})
 REASON_NOT_YET="check under construction in this session (see DESIGN.md §6); not claimed yet"
 m={
  "version":1,
